@@ -402,7 +402,18 @@ def run(ctx):
                 if (isinstance(lit.ops[0], ast.NotEq) and lp) or (isinstance(lit.ops[0], ast.Eq) and not lp):
                     return True
         return False
-    guard = bool(dec_sites) and all(any(excludes_placeholder(t, pol) for t, pol in conds) for st_, conds in dec_sites)
+    def expr_guards(st_):
+        # conditions of conditional expressions around the decode call inside its statement
+        out = []
+        calls_ = [x for x in ast.walk(st_) if isinstance(x, ast.Call) and isinstance(x.func, ast.Attribute) and x.func.attr == 'b64decode']
+        for ie in [x for x in ast.walk(st_) if isinstance(x, ast.IfExp)]:
+            for c_ in calls_:
+                if any(y is c_ for y in ast.walk(ie.body)):
+                    out.append((ie.test, True))
+                elif any(y is c_ for y in ast.walk(ie.orelse)):
+                    out.append((ie.test, False))
+        return out
+    guard = bool(dec_sites) and all(any(excludes_placeholder(t, pol) for t, pol in list(conds) + expr_guards(st_)) for st_, conds in dec_sites)
     cc.instance('placeholder written and compared through the same constant; %r is outside the base64 alphabet; decode skipped for it' % text, fi.name,
                 wr and rdc and distinct and guard)
     cc.evaluations += 4
